@@ -327,6 +327,11 @@ func (r *c11run) checkUpdateMode(p result.Patch) (checked int) {
 	w := r.w
 	for _, u := range p.PackageUpdates {
 		feat := features(w, []result.PackageUpdate{u})
+		if c, err := semver.Maven.ParseConstraint(u.VersionFrom); err == nil && c.IsSimple() {
+			if p := w.pkg(u.Name); p != nil && !hasVersion(p, u.VersionFrom) {
+				feat = strings.TrimSuffix("declared-version-not-in-registry+"+feat, "+")
+			}
+		}
 		lvl := w.Opts.level(u.Name)
 		if lvl == "none" {
 			r.out.Violate("touched-none", "touched-none:update:"+feat, "Update proposes %s although the level of %s is none; %s", updString(u), u.Name, r.ctx)
